@@ -30,6 +30,47 @@ Theorem C11_language : forall a b ra rb,
   lang_matches a b ra rb = (obeqb a b || (ra && is_none a) || (rb && is_none b)).
 Proof. intros a b ra rb. unfold lang_matches, is_none. destruct a, b, ra, rb; cbn; rewrite ?orb_true_r, ?orb_false_r; reflexivity. Qed.
 
+(* the algebraic laws lifted to Locale.  Private use on either side forces false (so reflexivity holds
+   exactly for locales without private-use subtags); symmetry and monotonicity hold for all locales *)
+Theorem C11_locale_private_false : forall a b ra rb,
+  e_private (loc_ext a) <> [] \/ e_private (loc_ext b) <> [] -> loc_matches a b ra rb = false.
+Proof.
+  intros a b ra rb H. unfold loc_matches.
+  destruct (e_private (loc_ext a)) as [|p ps], (e_private (loc_ext b)) as [|q qs]; try reflexivity.
+  destruct H as [H|H]; contradiction H; reflexivity.
+Qed.
+Theorem C11_locale_symmetric : forall a b ra rb, loc_matches a b ra rb = loc_matches b a rb ra.
+Proof.
+  intros a b ra rb. unfold loc_matches.
+  destruct (e_private (loc_ext a)) as [|p ps], (e_private (loc_ext b)) as [|q qs]; try reflexivity.
+  apply C11_symmetric.
+Qed.
+Theorem C11_locale_reflexive_iff : forall a ra rb,
+  loc_matches a a ra rb = true <-> e_private (loc_ext a) = [].
+Proof.
+  intros a ra rb. unfold loc_matches. destruct (e_private (loc_ext a)) as [|p ps].
+  - split; [reflexivity|intros _; apply C11_reflexive].
+  - split; discriminate.
+Qed.
+Theorem C11_locale_monotone : forall a b ra rb ra' rb',
+  (ra = true -> ra' = true) -> (rb = true -> rb' = true) ->
+  loc_matches a b ra rb = true -> loc_matches a b ra' rb' = true.
+Proof.
+  intros a b ra rb ra' rb' Ha Hb. unfold loc_matches.
+  destruct (e_private (loc_ext a)) as [|p ps], (e_private (loc_ext b)) as [|q qs]; try discriminate.
+  apply C11_monotone; assumption.
+Qed.
+(* with both flags off and no private use it is equality of the ids, whatever -u- / -t- hold *)
+Theorem C11_locale_strict : forall a b,
+  e_private (loc_ext a) = [] -> e_private (loc_ext b) = [] ->
+  loc_matches a b false false = li_eqb (loc_id a) (loc_id b).
+Proof. intros a b Ha Hb. unfold loc_matches. rewrite Ha, Hb. apply C11_eq_when_strict. Qed.
+Print Assumptions C11_locale_private_false.
+Print Assumptions C11_locale_symmetric.
+Print Assumptions C11_locale_reflexive_iff.
+Print Assumptions C11_locale_monotone.
+Print Assumptions C11_locale_strict.
+
 Print Assumptions C11_spec.
 Print Assumptions C11_eq_when_strict.
 Print Assumptions C11_symmetric.
